@@ -1,4 +1,4 @@
-From PV Require Import Model.Pipeline.
+From PV Require Import Model.Pipeline Model.Full.
 Require Extraction. Require ExtrOcamlBasic.
 Extraction Language OCaml.
-Extraction "../ocaml/build/c01/model.ml" Pipeline.entry.
+Extraction "../ocaml/build/c01/model.ml" Full.entry.
